@@ -7,6 +7,10 @@ Correspondence: exhaustive small-scope histories + random histories over the pub
 run on the real objects and on the Lean model (`kernel.run`); outcome and state delta (every record that
 changed, objects as creation indices) are compared after every call.
 Oracle: `kernel_ops.wf_oracle` — the invariant itself on the real objects through public accessors only.
+Alphabet tie (round 3): `kernel_ops.check_alphabet` introspects the real classes (Graph, Function, GraphView, Node,
+Value, the tracked lists, GraphInitializers, Attributes, Tape, Builder, onnx_ir.convenience, onnx_ir.tape) and
+compares every public member with `kernel_ops.API_TABLE` (mapped to a model operation and exercised >= 20 times
+per run / outside the alphabet with a reason / query); an unclassified member is a broken correspondence.
 """
 from __future__ import annotations
 
@@ -37,6 +41,8 @@ THEOREMS = [
     "IrVerif.Kernel.C01_node_sequence_refined",
     "IrVerif.Kernel.C01_node_sequence_history",
     "IrVerif.Kernel.C01_graph_calls_use_seq",
+    "IrVerif.Kernel.C01_attr_frame",
+    "IrVerif.Kernel.C01_sort_step",
 ]
 ASSUMPTIONS = [
     "alphabet: Value(...), const_value= (also a tensor whose name cannot be assigned), Node(...) (inputs, num_outputs / "
@@ -44,16 +50,25 @@ ASSUMPTIONS = [
     "resize_inputs/outputs, Value.replace_all_uses_with, every mutator of the tracked input/output lists (append extend "
     "insert pop remove clear [i]= [a:b:c]= del[i] del[a:b:c] reverse += *=) and of the initializer mapping (d[k]= del d[k] "
     "add pop popitem clear update |= setdefault register_initializer), Value.name=, Graph/Function.append extend "
-    "insert_before insert_after remove(safe) sort, Node.append/prepend, node.attributes[k] = graph attribute(s), "
-    "convenience.replace_all_uses_with / rename_values / replace_nodes_and_values",
-    "OUTSIDE the alphabet (public but not modelled): the raw `Node.graph = x` setter, `Node.name = ...`, list.sort()/copy() "
-    "of the tracked lists, underscore attributes and `.data`; `Value(producer=n, index=i)` is generated and recorded as "
-    "known finding D87 (it creates a value that names a producer which does not list it)",
+    "insert_before insert_after remove(safe) sort, Node.append/prepend, Node.name=, Node.op_type=, Value.const_value=None, "
+    "list.sort(key=, reverse=) of the tracked lists, every mutator of node.attributes ([k]= add update |= setdefault del "
+    "pop popitem clear; GRAPH / GRAPHS / plain attributes), Tape.op / op_multi_out / initializer, Builder.<Op>(...), "
+    "convenience.replace_all_uses_with / rename_values / replace_nodes_and_values; one-shot iterator arguments and the "
+    "same node listed twice for extend / insert_* / remove. The complete member-by-member table is "
+    "kernel_ops.API_TABLE (published under coverage.alphabet, with the number of times each mapped member was exercised)",
+    "OUTSIDE the alphabet (public, listed with its reason in API_TABLE): the raw `Node.graph = x` setter, fields that are "
+    "not kernel state (domain / version / overload / doc_string / meta / metadata_props / type / shape / device "
+    "configurations), GraphView (stores plain tuples; checked frame), underscore attributes and `.data`, sort() on a nest in "
+    "which a graph contains itself (the library's traversal does not terminate), and the aliasing copies of the tracked "
+    "containers (initializers.copy() / copy.copy(graph.inputs) / initializers | {...}: findings D420-D422, pending); "
+    "`Value(producer=n, index=i)` is generated and recorded as known finding D87",
     "arguments are existing objects of the right class (the model is typed)",
     "the node sequence is a duplicate-free list with the documented move semantics; C01_node_sequence_refined instantiates it "
-    "with C11's pointer-level LinkedSet model; Graph.sort enters the model as 'some permutation of each involved graph' "
-    "(C12 decides which); node attributes are not part of the model state (attribute edits are a no-op of the model; the "
-    "harness generates GRAPH / GRAPHS attributes, shared graphs and later assignment for the traversal-dependent calls)",
+    "with C11's pointer-level LinkedSet model; Graph.sort is computed by the model itself: C12's `sortModel` on the object "
+    "tree read off the model state (`treeOf`: node sequences, producers, graph-valued attributes in dict order); "
+    "C01_sort_step (hypothesis: C12's well-formedness of that tree - no Graph object reachable through two attributes - "
+    "evaluated by the driver on every sort call, share published as hyp:C01_sort_step.SortWF) shows that the result is a "
+    "permutation per graph, so the 'refuse a non-permutation' totalisation never decides; node attributes are model state",
     "model = validation, then a mutation phase of guarded primitives whose failing check makes the call raise with the "
     "partial state (ghost counter `late`); C01_mutation_faithful proves that no check fails after a passed validation; "
     "inside one mutation phase the model may order primitive effects differently from the Python statements; Python "
@@ -79,6 +94,7 @@ def run(ctx: Ctx) -> None:
     ctx.notes.append("directed: " + K.run_sort_scenarios(ctx, PROP))
     ctx.notes.append("directed: " + K.run_position_scenarios(ctx, PROP))
     K.run_random(ctx, PROP, ctx.pick(2000, 40000), ctx.pick(40, 60))
+    K.check_alphabet(ctx, PROP)
 
 
 def replay(ctx: Ctx, obj: dict) -> None:
